@@ -192,6 +192,9 @@ def run(tier: str) -> int:
     # not decide which of them the file is
     HDR = "#ifndef H\n#define H\nstatic int clamp(int v, int lo, int hi) {\n  if (v < lo) {\n    return lo;\n  }\n  if (v > hi) {\n    return hi;\n  }\n  return v;\n}\n\nstatic int sum(const int *xs, int n) {\n  int s = 0;\n  for (int i = 0; i < n; i++) {\n    s += xs[i];\n  }\n  return s;\n}\n#endif\n"
     special += [("C", "special/hdr.h", HDR), ("C++", "special/hdr.hh", HDR)]
+    # return type on a line of its own above the name (GNU / BSD style): the two lines are neighbours, not one unit
+    GNU = "static int\nadd(int a, int b)\n{\n  return a + b;\n}\n\nconst char *\nname_of(int k)\n{\n  if (k) {\n    return \"k\";\n  }\n  return \"\";\n}\n"
+    special += [("C", "special/hdr_gnu.c", GNU), ("C++", "special/hdr_gnu.cpp", GNU)]
     for lang, origin, text in special:
         for _rep in range(6 if ("mark" in origin or "hdr" in origin) else 3):  # three independent choices of points
             sel = rng.sample(scripts, min(b["scripts_per_corpus"], len(scripts)))
